@@ -120,7 +120,7 @@ func provenances() []provenance {
 
 func init() {
 	p := register(&Prop{ID: "C08", Level: "model_checking",
-		Rule: "explicit-state exploration of the real interpreter with value-semantics lockstep: (A) provenance x transformer grid: 19 ways of obtaining two stack items backed by the same bytes (direct push from the caller's script, DUP, 2DUP, 3DUP, OVER, 2OVER, PICK, TUCK, IFDUP, SPLIT left/right/at 0, alt-stack round trip, SWAP/ROT/2SWAP/ROLL of a copy, twin parked on the alt stack, CAT with empty) x EVERY opcode byte 0x4f..0xff as transformer x extra operand lists of length 0..2 over 4/6 edge operands x 6 (quick) / 16 (thorough) values V x both eras; (B) the mixed-alphabet program search of C05 (all programs to depth 3/4 from 79 seed stacks); (C) signature runs: valid and invalid P2PKH, P2PK and 2-of-3 multisig spends with real signatures, FORKID and legacy, both eras, with OP_CODESEPARATOR and signature-in-script variants. Oracles on every execution: every item of both stacks equals the value-semantics reference after every instruction; the caller's locking and unlocking script buffers are byte-identical afterwards; tx.Bytes() is unchanged and the checked input records nothing but the spent output; with and without a debugger attached, and with the scripts handed over through WithScripts for a transaction whose checked input has no unlocking script yet. states = distinct snapshots, transitions = instructions compared",
+		Rule: "explicit-state exploration of the real interpreter with value-semantics lockstep: (A) provenance x transformer grid: 19 ways of obtaining two stack items backed by the same bytes (direct push from the caller's script, DUP, 2DUP, 3DUP, OVER, 2OVER, PICK, TUCK, IFDUP, SPLIT left/right/at 0, alt-stack round trip, SWAP/ROT/2SWAP/ROLL of a copy, twin parked on the alt stack, CAT with empty) x EVERY opcode byte 0x4f..0xff as transformer x extra operand lists of length 0..2 over 4/6 edge operands x 6 (quick) / 16 (thorough) values V x both eras; (B) the mixed-alphabet program search of C05 (all programs to depth 3/4 from 79 seed stacks); (C) signature runs: valid and invalid P2PKH, P2PK and 2-of-3 multisig spends with real signatures, FORKID and legacy, both eras, with OP_CODESEPARATOR and signature-in-script variants (CHECKSIG and CHECKMULTISIG). Oracles on every execution: every item of both stacks equals the value-semantics reference after every instruction; the caller's locking and unlocking script buffers are byte-identical afterwards; tx.Bytes() is unchanged and the checked input records nothing but the spent output; with and without a debugger attached, and with the scripts handed over through WithScripts for a transaction whose checked input has no unlocking script yet. states = distinct snapshots, transitions = instructions compared",
 	})
 	NewSpace(p, "exec", c08Check)
 	p.Run = func(r *rep.Run, thorough bool) {
@@ -235,6 +235,19 @@ func c08SigCases() []scriptCase {
 			tx := scriptref.SpendingTx(nil, sepLock, amount)
 			sig := refSign(k0.priv, tx, 0, sepLock[len(sepLock)-1:], amount, ht, fk)
 			out = append(out, scriptCase{Unlock: pushAll(sig), Lock: sepLock, Flags: flags})
+			// the same for CHECKMULTISIG: code separator in front of the multisig part
+			sepMs := bytesJoin([]byte{0x51, 0xab, 0x75}, ms)
+			txm := scriptref.SpendingTx(nil, sepMs, amount)
+			codeMs := sepMs[2:]
+			out = append(out, scriptCase{Unlock: pushAll([]byte{}, refSign(k0.priv, txm, 0, codeMs, amount, ht, fk), refSign(k2.priv, txm, 0, codeMs, amount, ht, fk)), Lock: sepMs, Flags: flags})
+			out = append(out, scriptCase{Unlock: pushAll([]byte{}, refSign(k1.priv, txm, 0, codeMs, amount, ht, fk), refSign(k0.priv, txm, 0, codeMs, amount, ht, fk)), Lock: sepMs, Flags: flags}) // wrong order
+			// a multisig signature that also appears as a push inside the locking script
+			{
+				txs := scriptref.SpendingTx(nil, ms, amount)
+				sA, sB := refSign(k0.priv, txs, 0, ms, amount, ht, fk), refSign(k1.priv, txs, 0, ms, amount, ht, fk)
+				lockS := bytesJoin(minimalPush(sA), []byte{0x75}, ms)
+				out = append(out, scriptCase{Unlock: pushAll([]byte{}, sA, sB), Lock: lockS, Flags: flags})
+			}
 			// the signature also appears as a push inside the locking script (legacy FindAndDelete territory)
 			sig2 := refSign(k0.priv, scriptref.SpendingTx(nil, p2pk, amount), 0, p2pk, amount, ht, fk)
 			lock2 := bytesJoin(minimalPush(sig2), []byte{0x75}, p2pk)
